@@ -8,6 +8,7 @@ import (
 	"encoding/hex"
 	"errors"
 
+	"github.com/oasisprotocol/oasis-core/go/common/cbor"
 	"github.com/oasisprotocol/oasis-core/go/common/crypto/hash"
 )
 
@@ -59,6 +60,24 @@ func (n *Namespace) UnmarshalBinary(data []byte) error {
 	}
 
 	return nil
+}
+
+// UnmarshalCBOR decodes a CBOR marshaled namespace identifier.
+//
+// A namespace identifier is always encoded as a byte string. Without this the decoder would also
+// accept other encodings of a byte array (e.g. an array of integers) and fill in the identifier
+// directly, bypassing the validation performed by UnmarshalBinary.
+func (n *Namespace) UnmarshalCBOR(data []byte) error {
+	if len(data) == 0 || data[0]>>5 != 2 {
+		// Not a CBOR byte string (major type 2).
+		return ErrMalformedNamespace
+	}
+
+	var b []byte
+	if err := cbor.Unmarshal(data, &b); err != nil {
+		return err
+	}
+	return n.UnmarshalBinary(b)
 }
 
 // MarshalText encodes a namespace identifier into text form.
